@@ -104,7 +104,7 @@ class C17(core.Check):
                                        'neg:file-label/include-after-local-label', 'neg:file-label/include-after-org',
                                        'neg:file-label/include-nested', 'class:symbol-spelled-like-a-word-of-the-include-line',
                                        'symbol-from:define', 'symbol-from:config', 'symbol-from:cmdline',
-                                       'neg:main-file-again/relative', 'neg:main-file-again/absolute', 'neg:main-file-again/symlinked-directory']}
+                                       'class:file-names-differing-in-letter-case-only', 'neg:main-file-again/relative', 'neg:main-file-again/absolute', 'neg:main-file-again/symlinked-directory']}
 
     def metamorphic(self, rng, nest_p=0.5, prefer_mute=0):
         g = None
@@ -285,6 +285,30 @@ class C17(core.Check):
                            'meta': {'class': 'metamorphic', 'image': None, 'kind': 'ACCEPT', 'includes': [inc_name.split('/')[-1]]},
                            'tags': ['class:symbol-spelled-like-a-word-of-the-include-line', 'symbol-from:' + source, 'dirs:1', 'nesting:1']}
 
+    def case_twin_file_cases(self):
+        """two files whose names differ in letter case only are two files (on a file system that tells them apart): each may be
+        included once"""
+        isa = gen_prog.layout_isa(16)
+        fn, itext = isamod.render_isa(isa, 'json')
+        for k_, (main_name, files_, order_) in enumerate([
+                ('p.asm', {'p.asm': ['.byte $11', '#include "Tables.asm"', '#include "tables.asm"', '.byte $31'],
+                           'Tables.asm': ['big_t:', '.byte $21'], 'tables.asm': ['small_t:', '.byte $22', '.2byte big_t']}, None),
+                ('Main.asm', {'Main.asm': ['.byte $11', '#include "main.asm"', '.byte $31'], 'main.asm': ['.byte $21, $22']}, None),
+                ('p.asm', {'p.asm': ['.byte $11', '#include "a.asm"', '.byte $31'], 'a.asm': ['.byte $21', '#include "A.asm"'], 'A.asm': ['.byte $22']}, None),
+                ('p.asm', {'p.asm': ['.byte $11', '#include "x.asm"', '#include "X.ASM"', '.byte $31'], 'x.asm': ['.byte $21'], 'X.ASM': ['.byte $22']}, None)]):
+            def flat(fname):
+                out_ = []
+                for t_ in files_[fname]:
+                    out_ += flat(t_.split('"')[1]) if t_.startswith('#include') else [t_]
+                return out_
+            fl = {f_: '\n'.join(t_) + '\n' for f_, t_ in files_.items()}
+            fl[fn] = itext
+            yield {'runs': [{'files': fl, 'argv': ['compile', '-c', fn, main_name, '-o', 'out.bin'], 'probes': ['steps', 'files'], 'step_limit': 500000},
+                            {'files': {fn: itext, 'p.asm': '\n'.join(flat(main_name)) + '\n'},
+                             'argv': ['compile', '-c', fn, 'p.asm', '-o', 'out.bin'], 'probes': ['steps'], 'step_limit': 500000}],
+                   'meta': {'class': 'metamorphic', 'image': None, 'kind': 'ACCEPT', 'includes': []},
+                   'tags': ['class:file-names-differing-in-letter-case-only', 'dirs:1', 'nesting:1']}
+
     def dead_include_cases(self):
         """an #include inside a branch that is not compiled has no effect at all: it may name a file that was already
         included, that does not exist, or that is ambiguous"""
@@ -405,6 +429,7 @@ class C17(core.Check):
         yield from self.mute_depth_cases()
         yield from self.dead_include_cases()
         yield from self.symbol_name_cases()
+        yield from self.case_twin_file_cases()
         negs = ['included-twice', 'transitively-twice', 'self-include', 'missing-file', 'ambiguous-name']
         for i in range(25 if tier == 'quick' else 100):
             rng = core.rng_for(0, self.pid, 'neg', i)
